@@ -59,6 +59,13 @@ seeded/C13-c/patch.diff C13
 seeded/C14-c/patch.diff C14
 seeded/C16-c/patch.diff C16
 seeded/C17-c/patch.diff C17
+selftest/mutants/F29-reintroduce.patch C15
+seeded/C02-d/patch.diff C02
+seeded/C08-d/patch.diff C08
+seeded/C09-d/patch.diff C04
+seeded/C14-d/patch.diff C14
+seeded/C18-d/patch.diff C18
+seeded/C18-d/patch.diff C07
 seeded/C18-c/patch.diff C18
 seeded/C06-c/patch.diff C06
 seeded/C07-c/patch.diff C07
